@@ -440,6 +440,15 @@ def is_site(x):
     return isinstance(x, tuple) and len(x) >= 3 and isinstance(x[0], str) and x[0].endswith(".py")
 
 
+def site_loops(t):
+    """Loop ids enclosing the creation site of a res/new/draw term (None if t has no site)."""
+    if isinstance(t, tuple) and len(t) > 1 and is_site(t[1]):
+        last = t[1][-1]
+        if isinstance(last, tuple) and last and last[0] == "L":
+            return tuple(last[1:])
+    return None
+
+
 def strip_sites(t):
     """Replace sites (which carry line numbers) by a placeholder, for line-independent keys."""
     if is_site(t):
@@ -602,7 +611,9 @@ class Summariser:
 
     # -- helpers ---------------------------------------------------------------------------------
     def site(self, node):
-        return (self.module.path, node.lineno, node.col_offset) + tuple(self.stack)
+        # the enclosing loops are part of the identity: an object created inside a loop is a new object
+        # per iteration, and rules can ask where it is created (site_loops)
+        return (self.module.path, node.lineno, node.col_offset) + tuple(self.stack) + (("L",) + tuple(self.loops),)
 
     def field(self, name):
         if name not in self.fields:
